@@ -7,7 +7,8 @@ G == JsonDeserialize(IOEnv.GRAPH)
 NDuts == Len(G.duts)
 VARIABLES d, s
 vars == <<d, s, first, exp, stg, rd, bsel, owe, obs>>
-C == G.duts[d].cfg
+K == [i \in 1..NDuts |-> Ext(G.duts[i].cfg)]     \* evaluated once (constant)
+C == K[d]
 
 Init == /\ d \in 1..NDuts /\ s = 0 /\ CInit(C)
 
